@@ -276,6 +276,14 @@ def gen_model(rng, n=None, kinds=None, hostile_logs=True, complete=True, max_sca
         names = list(rng.choice(TRACES, int(rng.integers(1, 7)), replace=False))
         traces = {str(t): rng.integers(-2 ** 15, 2 ** 15, (n, s)).astype(np.int16)
                   for t in names}
+        q = rng.random()
+        if q < 0.08:
+            # traces are stored with the data type they are given in: e.g. smoothed
+            # (non-integer) traces or wider integers
+            traces = {t: (v.astype(np.float64) + rng.uniform(0, 1, v.shape)) for t, v in
+                      traces.items()}
+        elif q < 0.16:
+            traces = {t: v.astype(np.int32) * 3 for t, v in traces.items()}
         feats["trace"] = traces
     meta = complete_meta(rng, feats, n, shape, traces) if complete else {
         "experiment": {"sample": "partial"}, "setup": {"channel width": 20.0}}
